@@ -333,12 +333,17 @@ func (n *ServerNode) Register(gca glow.PublicKey, signer *KeyPair) *HTTPResult {
 // SyncSession performs one raw TCP sync session: it writes req, then reads
 // everything the server sends until it closes the connection.
 func (n *ServerNode) SyncSession(req []byte) (reply []byte, panicked interface{}, stack string) {
-	cli, srv := net.Pipe()
+	cli, srv := SimPipe()
 	st := n.W.Go("tcp@"+n.Name, func() {
 		n.S.VerifHandleSyncConn(srv)
 	})
 	ct := n.W.Go("tcpclient", func() {
 		cli.Write(req)
+		if len(req) < 4 {
+			// A request that ends early: the peer closes its connection.
+			cli.Close()
+			return
+		}
 		reply, _ = io.ReadAll(cli)
 		cli.Close()
 	})
@@ -483,7 +488,7 @@ func (w *World) dial(network, address string) (net.Conn, error) {
 		w.Fault("tcp.refused")
 		return nil, &netError{msg: "dial tcp " + address + ": connect: connection refused"}
 	}
-	cli, srv := net.Pipe()
+	cli, srv := SimPipe()
 	if act.Serve != nil {
 		serve := act.Serve
 		go func() {
